@@ -10,6 +10,7 @@ PATCH=$(readlink -f "$1"); shift
 SUITE=0; [ "${1:-}" = "--suite" ] && { SUITE=1; shift; }
 PROPS=${*:-$(python3 -c "import json;print(' '.join(c['property_id'] for c in json.load(open('MANIFEST.json'))['checks']))")}
 export GOFLAGS=-mod=mod GOPROXY=off GOSUMDB=off
+export COLSIM_MINBUDGET=${COLSIM_MINBUDGET:-5}   # mutation runs only need the verdict: short minimisation
 D=/tmp/mutrun/$$; mkdir -p /tmp/mutrun
 git -C /repo worktree add -q --detach "$D" HEAD || exit 2
 trap 'git -C /repo worktree remove --force "$D" >/dev/null 2>&1; rm -rf "$D"' EXIT
